@@ -20,6 +20,15 @@
  *   SEGVSELF <ncyg> <sig>      enter ncyg functions through __cyg_profile_func_enter, then raise(sig)
  *   STEPKILL <k> <nth> rtd …   (C04) run the rtd op in a forked, ptrace-single-stepped copy and stop it
  *                              at the nth observable change of the thread's current buffer header
+ *
+ * (C04) a call history through the real hooks on the main thread, under whatever record-time filters the
+ * UFTRACE_* environment sets (lib/mcgen.py), ended by a real signal / a finish trigger; the records are read
+ * from the shared-memory buffers the dead process leaves behind:
+ *   T <n> | TICK <n>           scripted clock (TICK 0: the clock stands still between T ops)
+ *   E pg <i> | E cyg <i>       mcount_entry() with a fake return slot / __cyg_profile_func_enter() of function i
+ *                              (0..7 = f0..f7, 8 = g_big)
+ *   X                          return from the innermost open call of the script
+ *   RAISE <sig>                raise(sig): the real segv_handler runs on the shadow stack the history built
  */
 #define _GNU_SOURCE
 #include <dlfcn.h>
@@ -50,11 +59,12 @@ extern void __cyg_profile_func_enter(void *child, void *parent);
 
 /* ---- scripted clock ---- */
 static uint64_t h1_now = 1000;
+static uint64_t h1_tick = 1;
 int clock_gettime(clockid_t id, struct timespec *ts)
 {
 	ts->tv_sec = h1_now / 1000000000ULL;
 	ts->tv_nsec = h1_now % 1000000000ULL;
-	h1_now += 1;
+	h1_now += h1_tick;
 	return 0;
 }
 
@@ -570,8 +580,28 @@ static void dump_state(const char *pre)
 	}
 DUMMY(f0) DUMMY(f1) DUMMY(f2) DUMMY(f3)
 extern void f4(void), f5(void), f6(void), f7(void);
+/* a bigger function for size filters */
+__attribute__((noinline, used)) void g_big(void)
+{
+	asm volatile(".rept 200\n nop\n .endr");
+}
 typedef void (*fn_t)(void);
-static fn_t funcs[] = { f0, f1, f2, f3, f4, f5, f6, f7 };
+static fn_t funcs[] = { f0, f1, f2, f3, f4, f5, f6, f7, g_big };
+#define NFUNC (sizeof(funcs) / sizeof(funcs[0]))
+
+/* ---- (C04) the script's own call stack for the hook history (as harness/h1_driver.c) ---- */
+extern int mcount_entry(unsigned long *parent_loc, unsigned long child, struct mcount_regs *regs);
+extern unsigned long mcount_exit(long *retval);
+extern void __cyg_profile_func_exit(void *child, void *parent);
+struct hframe {
+	int kind; /* 0 = pg, 1 = cyg */
+	int fn;
+	int hijacked;
+	unsigned long orig;
+	unsigned long slot[4]; /* slot[1] is the fake return slot; slot[0] plays parent_loc[-1] */
+};
+static struct hframe hstack[4096];
+static int hdepth;
 
 static int parse_rtd(char **tok, int nt, struct rtd_op *op)
 {
@@ -743,7 +773,7 @@ int main(void)
 	inline_mode = getenv("H1C03_INLINE") != NULL;
 
 	printf("SYMS");
-	for (k = 0; k < 8; k++)
+	for (k = 0; k < (int)NFUNC; k++)
 		printf(" %lx", (unsigned long)funcs[k]);
 	printf("\n");
 
@@ -971,11 +1001,80 @@ int main(void)
 			else
 				printf("bad-op\n");
 		}
+		else if (!strcmp(tok[0], "T") && nt >= 2) {
+			h1_now = strtoull(tok[1], NULL, 0);
+			printf("h ok\n");
+		}
+		else if (!strcmp(tok[0], "TICK") && nt >= 2) {
+			h1_tick = strtoull(tok[1], NULL, 0);
+			printf("h ok\n");
+		}
+		else if (!strcmp(tok[0], "E") && nt >= 3) {
+			static struct mcount_regs regs;
+			int fn = atoi(tok[2]), rc = 0;
+			struct hframe *h = &hstack[hdepth];
+
+			if (fn < 0 || fn >= (int)NFUNC || hdepth >= 4095) {
+				printf("bad-op\n");
+				continue;
+			}
+			h->fn = fn;
+			h->orig = 0xcafe0000UL + hdepth * 16 + 1;
+			h->slot[0] = (unsigned long)&h->slot[3];
+			h->slot[1] = h->orig;
+			h->hijacked = 0;
+			if (!strcmp(tok[1], "pg")) {
+				h->kind = 0;
+				rc = mcount_entry(&h->slot[1], (unsigned long)funcs[fn], &regs);
+				h->hijacked = h->slot[1] != h->orig;
+			}
+			else {
+				h->kind = 1;
+				__cyg_profile_func_enter((void *)funcs[fn], (void *)h->orig);
+			}
+			hdepth++;
+			printf("h rc=%d hij=%d\n", rc, h->hijacked);
+		}
+		else if (!strcmp(tok[0], "X")) {
+			struct hframe *h;
+			const char *ret = "-";
+
+			if (hdepth == 0) {
+				printf("bad-op\n");
+				continue;
+			}
+			h = &hstack[--hdepth];
+			if (h->kind == 0) {
+				/* still hijacked (mtd_dtor after a finish trigger restores the return addresses) */
+				if (h->hijacked && h->slot[1] != h->orig) {
+					long rv = 0;
+					unsigned long back = mcount_exit(&rv);
+
+					ret = back == h->orig ? "ok" : "BAD";
+				}
+			}
+			else
+				__cyg_profile_func_exit((void *)funcs[h->fn], (void *)h->orig);
+			printf("h ret=%s\n", ret);
+		}
+		else if (!strcmp(tok[0], "RAISE") && nt >= 2) {
+			struct mcount_thread_data *mtdp = get_thread_data();
+			int i, restored = 1;
+
+			printf("raising %s idx=%d\n", tok[1], mtdp && !check_thread_data(mtdp) ? mtdp->idx : -1);
+			fflush(stdout);
+			raise(atoi(tok[1]));
+			/* only if the signal is not fatal (never for 6 / 11): the handler restored the return slots */
+			for (i = 0; i < hdepth; i++)
+				if (hstack[i].kind == 0 && hstack[i].slot[1] != hstack[i].orig)
+					restored = 0;
+			printf("survived restored=%d\n", restored);
+		}
 		else if (!strcmp(tok[0], "SEGVSELF") && nt >= 3) {
 			int n = atoi(tok[1]), sig = atoi(tok[2]), i;
 
 			for (i = 0; i < n; i++)
-				__cyg_profile_func_enter((void *)funcs[i % 8], (void *)0xcafe0001UL);
+				__cyg_profile_func_enter((void *)funcs[i % 8], (void *)0xcafe0001UL);  /* f0..f7 */
 			printf("raising %d idx=%d\n", sig, ((struct mcount_thread_data *)get_thread_data())->idx);
 			fflush(stdout);
 			raise(sig);
